@@ -266,8 +266,9 @@ class _G(object):
             k = rng.choice([1, 2, 2, 3, 3, 4, 5])
             args = []
             tot = 0
+            rep = rng.choice(self.avail) if rng.random() < 0.12 else None   # concat_list([b] * k)
             for _ in range(k):
-                q = rng.choice(self.avail)
+                q = rep if rep is not None else rng.choice(self.avail)
                 if tot + q[1] > cfg['max_concat']:
                     break
                 args.append(q)
@@ -507,4 +508,12 @@ def gen_init(rng, script, allow_default=True):
     default = 0
     if allow_default and rng.random() < 0.2:
         default = 1
+        if rng.random() < 0.4:
+            # a larger default is legal when it fits every register and every memory word
+            # (inputs may well be narrower)
+            lim = [w['w'] for w in script['wires'] if w['k'] == 'R'] + \
+                  [m['bw'] for m in script['mems'] if not m.get('rom')]
+            room = min(lim) if lim else 8
+            if room >= 2:
+                default = rng.randrange(2, 1 << min(room, 8))
     return {'regs': regs, 'mems': mems, 'default': default}
